@@ -50,6 +50,59 @@ func inputDerived(p *Prog, scope func(*ssa.Function) bool) map[ssa.Value]string 
 		}
 		return false
 	}
+	// fields of locally built objects: what was stored into field f of allocation o; objsOf resolves an address expression to
+	// the allocations it may denote (the allocation itself, or what was stored into a field of one: `x.Meta.URIs`)
+	type objField struct {
+		o ssa.Value
+		f int
+	}
+	stored := map[objField][]ssa.Value{}
+	var objsOf func(v ssa.Value, depth int) []ssa.Value
+	objsOf = func(v ssa.Value, depth int) []ssa.Value {
+		if depth > 4 {
+			return nil
+		}
+		switch x := v.(type) {
+		case *ssa.Alloc:
+			return []ssa.Value{x}
+		case *ssa.UnOp:
+			if fa, ok := x.X.(*ssa.FieldAddr); ok && x.Op == token.MUL {
+				var out []ssa.Value
+				for _, o := range objsOf(fa.X, depth+1) {
+					for _, sv := range stored[objField{o, fa.Field}] {
+						out = append(out, objsOf(sv, depth+1)...)
+					}
+				}
+				return out
+			}
+		case *ssa.Phi:
+			var out []ssa.Value
+			for _, ed := range x.Edges {
+				if ed != ssa.Value(x) {
+					out = append(out, objsOf(ed, depth+1)...)
+				}
+			}
+			return out
+		}
+		return nil
+	}
+	for _, fn := range p.Funcs {
+		if !scope(fn) {
+			continue
+		}
+		for _, b := range fn.Blocks {
+			for _, in := range b.Instrs {
+				if st, ok := in.(*ssa.Store); ok {
+					if fa, ok := st.Addr.(*ssa.FieldAddr); ok {
+						if al, ok := fa.X.(*ssa.Alloc); ok {
+							stored[objField{al, fa.Field}] = append(stored[objField{al, fa.Field}], st.Val)
+						}
+					}
+				}
+			}
+		}
+	}
+	taintedField := map[objField]string{}
 	for changed := true; changed; {
 		changed = false
 		add := func(v ssa.Value, why string) {
@@ -80,6 +133,26 @@ func inputDerived(p *Prog, scope func(*ssa.Function) bool) map[ssa.Value]string 
 					case *ssa.UnOp:
 						if w, ok := D[x.X]; ok && x.Op == token.MUL && sharesMemory(x.Type()) {
 							add(x, w)
+						}
+						// a load of a field of a locally built object into which input memory was stored
+						if fa, ok := x.X.(*ssa.FieldAddr); ok && x.Op == token.MUL && sharesMemory(x.Type()) {
+							for _, o := range objsOf(fa.X, 0) {
+								if w, ok := taintedField[objField{o, fa.Field}]; ok {
+									add(x, w)
+								}
+							}
+						}
+					case *ssa.Store:
+						if fa, ok := x.Addr.(*ssa.FieldAddr); ok {
+							if w, ok := D[x.Val]; ok && sharesMemory(x.Val.Type()) {
+								for _, o := range objsOf(fa.X, 0) {
+									k := objField{o, fa.Field}
+									if _, has := taintedField[k]; !has {
+										taintedField[k] = w + ", kept in field " + fieldName(fa.X.Type(), fa.Field) + " of an object built in " + fn.Name()
+										changed = true
+									}
+								}
+							}
 						}
 					case *ssa.Phi:
 						for _, ed := range x.Edges {
